@@ -5,7 +5,7 @@ use educe::Educe;
 use core::cmp::Ordering;
 #[derive(Educe)]
 #[educe(Clone)]
-pub union T { c: [u16; 2], x: [u8; 3] }
+pub union T { x: u64, a: C<1> }
 impl Copy for T {}
 pub fn mk(pattern: u8) -> T { let mut x = ::core::mem::MaybeUninit::<T>::uninit(); unsafe { ::core::ptr::write_bytes(x.as_mut_ptr() as *mut u8, 0, ::core::mem::size_of::<T>()); let p = x.as_mut_ptr() as *mut u8; for i in 0..::core::mem::size_of::<T>() { *p.add(i) = pattern.wrapping_mul(i as u8 + 1).wrapping_add(i as u8); } x.assume_init() } }
 pub fn bytes(x: &T) -> &[u8] { unsafe { ::core::slice::from_raw_parts(x as *const T as *const u8, ::core::mem::size_of::<T>()) } }
